@@ -68,7 +68,7 @@ def fail(report, clause, trigger, case, impl=None, detail=""):
 def translate():
     from translator import registry
 
-    return registry.generate("Confidence", "KernelsConf")
+    return registry.generate("Confidence", "KernelsConf", "KernelsRegul")
 
 
 # ------------------------------------------------------------------------------------------------
@@ -852,6 +852,33 @@ def translator_cross_check(report, status):
     report.translator_checks += 1
     if sorted(gen["registered"]) != sorted(A.confidence_methods_avail):
         status.problem("translator", f"registered methods {gen['registered']} differ from the live registry {sorted(A.confidence_methods_avail)}")
+    # the indicator rule as READ (gen_confidence.eval_rule on the extracted record, the thing Properties/C12Names.lean evaluates)
+    # against the indicator statements of `cost_volume_confidence_run` themselves, executed by CPython on step names with 0-4 dots
+    import ast as _ast
+    import random as _random
+
+    from translator import common as _common
+
+    report.translator_checks += 1
+    try:
+        fn = _common.find_method(_common.find_class(_common.parse(gen_confidence.MACHINE), "PandoraMachine"), "cost_volume_confidence_run")
+        stmts = [n for n in fn.body if isinstance(n, (_ast.Assign, _ast.If))
+                 and any(gen_confidence.is_indicator_target(t) for a in _ast.walk(n) if isinstance(a, _ast.Assign) for t in a.targets)]
+        code = compile(_ast.fix_missing_locations(_ast.Module(body=stmts, type_ignores=[])), "<indicator statements>", "exec")
+        rng = _random.Random(12)
+        names = list(gen_confidence.GOLDEN_STEPS)
+        for _ in range(200):
+            names.append(".".join("".join(rng.choice("ab_1") for _ in range(rng.randint(0, 3))) for _ in range(rng.randint(1, 5))))
+        for step in names:
+            env = {"cfg": {"pipeline": {step: {}}}, "input_step": step}
+            exec(code, env)  # pylint: disable=exec-used
+            live = env["cfg"]["pipeline"][step]["indicator"]
+            read = gen_confidence.eval_rule(gen["rule"], step)
+            if live != read:
+                status.problem("translator", f"indicator rule read as {gen['rule']} gives {read!r} on step {step!r}, the source statements give {live!r}")
+                break
+    except Exception as exc:  # pylint: disable=broad-except
+        status.problem("translator", f"indicator statements of cost_volume_confidence_run could not be executed: {type(exc).__name__}: {exc}")
 
 
 def kernel_cross_check(ctx, report, status):
@@ -949,9 +976,51 @@ def kernel_cross_check(ctx, report, status):
                                            f"real={[([float(y) for y in x] if isinstance(x, list) else float(x)) for x in want[name]]} reading={res} {[str(v) for v in (vals or [])]}")
 
 
+def regul_cross_check(ctx, report, status):
+    """The REAL compiled `create_connected_graph(border_left, border_right, depth)`, depth 0-5, against the translator's exact
+    reading of the whole function (`gen_kernels_regul.evaluate_whole` on the tree `Generated/KernelsRegul.lean` is printed
+    from: identity branch, connection scan, closure nest) on random segment lists: row-major as `np.argwhere` lists them,
+    and arbitrary ones (the equality theorem holds for every list).  A mismatch -> `status.problem("translator", …)`."""
+    import random
+
+    try:
+        from translator import gen_kernels_regul
+        x = gen_kernels_regul.extract_whole()
+    except Exception:  # already reported by build_and_audit (translate())  # pylint: disable=broad-except
+        return
+    from pandora import interval_tools
+
+    report.translator_checks += 1
+    for msg in gen_kernels_regul.selftest():   # 16 rewrites that must be refused, 2 that must read as the same function
+        status.problem("translator", f"gen_kernels_regul self-test: {msg}")
+    report.translator_checks += 1
+    rng = random.Random(ctx.seed * 7919 + 12)
+    problems = 0
+    for it in range(ctx.n(150, 1500)):
+        n = rng.choice([0, 1, 2, 3, 4, 5, 6, 8])
+        segs = []
+        for _ in range(n):
+            r, c0 = rng.randint(0, 3), rng.randint(0, 6)
+            segs.append((r, c0, c0 + rng.randint(0, 3)))
+        if it % 3:
+            segs.sort()
+        bl = [[r, c0] for r, c0, _ in segs]
+        br = [[r, c1] for r, _, c1 in segs]
+        depth = rng.choice([0, 1, 1, 2, 3, 5])
+        real = interval_tools.create_connected_graph(np.array(bl, dtype=np.int64).reshape((n, 2)), np.array(br, dtype=np.int64).reshape((n, 2)), depth)
+        want = gen_kernels_regul.evaluate_whole(x, bl, br, depth)
+        report.count("regul_translation_calls")
+        if [[bool(v) for v in row] for row in real.tolist()] != want:
+            problems += 1
+            if problems <= 3:
+                status.problem("translator", f"translated create_connected_graph evaluates differently from the real function on "
+                               f"border_left={bl} border_right={br} depth={depth}", f"real={real.astype(int).tolist()} reading={[[int(v) for v in r] for r in want]}")
+
+
 def run(ctx, report, status):
     translator_cross_check(report, status)
     kernel_cross_check(ctx, report, status)
+    regul_cross_check(ctx, report, status)
     report.rule = (
         "kernels: random 1-5 x 1-7 x 1-9 cost volumes (integer / quarter / few-valued / ramp costs, global range a power of two, "
         "NaN holes, all-NaN pixels, missing planes, full ties), min and max measures, dyadic eta grids and thresholds -> exact "
